@@ -312,9 +312,7 @@ def run(ctx):
     # ---------------------------------------------------------------- R7 skipping a member by _sizeof lands where parsing it would: sizeof = parse amount for every class (shared with C05.R2)
     from ..core import Ctx as _Ctx
     from . import C05_amounts
-    sub = _Ctx("C05", ctx.tier, ctx.root, model=ctx.model)
-    sub._summ = summariser(ctx)
-    C05_amounts.run(sub)
+    sub = shared_run(ctx, C05_amounts, prop="C05")
     for e in sub.errors:
         ctx.error("shared C05 rules: " + e)
     for o in sub.obligations:
